@@ -270,7 +270,7 @@ def build(x):
                      detail='`for &x in v.iter() {` -> `let mut __k = 0; while __k < v.len() { let x = v[__k]; __k += 1;` (Verus: no ref patterns, no `continue` in for-loops)')
     nx.sub('V-ITER', r'for \(_, batcher\) in self\.senders\.iter_mut\(\) \{', 'let mut __k: usize = 0; while __k < self.senders.len() { let batcher = &mut self.senders[__k].1; __k += 1;',
            detail='`for (_, b) in v.iter_mut() {` -> `let mut __k = 0; while __k < v.len() { let b = &mut v[__k].1; __k += 1;`', must=True)
-    nx.sub('V-ITER', r'for \(_, batcher\) in self\.senders\.drain\(\.\.\) \{', 'while self.senders.len() > 0 { let (_, batcher) = self.senders.remove(0);',
+    nx.sub('V-ITER', r'for \(_, batcher\) in self\.senders\.drain\(\.\.\) \{', 'while self.senders.len() > 0 { let (_, batcher) = self.senders.remove(0); let ghost __b = batcher; /*@drained_batcher*/',
            detail='`for (_, b) in v.drain(..) {` -> `while v.len() > 0 { let (_, b) = v.remove(0);` (front-to-back, v empty afterwards)', must=True)
     nx.sub('V-ITER', r'for block in self\.block_senders\.iter\(\) \{', 'for __g in 0..self.block_senders.len() { let block = &self.block_senders[__g];',
            detail='`for x in v.iter() {` -> `for __g in 0..v.len() { let x = &v[__g];`', must=True)
@@ -288,5 +288,6 @@ def build(x):
     nx.insert_before('// Flushing messages', GHOST_MID)
     nx.add_loop_spec(4, INV_FLUSH)
     nx.add_loop_spec(5, INV_END)
+    nx.insert_at_loop_end(5, '\n                    assert(Batcher::ended(__b));   // #obl:end.terminate_ends_every_batcher\n                ')
     nx.insert_before('        to_return\n', FINAL_HINT)
     return pieces + ["impl<OperatorChain, IndexFn> End<OperatorChain, IndexFn>\nwhere\n    IndexFn: KeyerFn<u64, OperatorChain::Out>,\n    OperatorChain: Operator,\n    OperatorChain::Out: ExchangeData,\n{", nx, "}"]
